@@ -274,12 +274,17 @@ func (fv *FuncVC) callWithContractEnv(x *ssa.Call, cc *FuncContract, extra map[s
 				allocates = true
 			}
 		}
-		// a callee whose postcondition promises nothing fresh can only change its modifies targets
-		hs = fv.havocCall(x, mods, allocates)
+		// A callee can only change its modifies targets. Memory it allocates (fresh results) lies at ids that are
+		// unallocated in the pre-state, where no heap version is constrained: its content is described on the same
+		// heap terms (allocation reveals unconstrained memory), so heaps outside the modifies set get no new
+		// version and no frame quantifier. Only the allocation counter moves.
+		_ = allocates
+		hs = fv.havocCall(x, mods, false)
 		post = hs
 	}
 	ts := fv.freshResults(x)
 	envPost := mkEnv(post, pre)
+	envPost.postAlloc = post.get("alloc")
 	for i, alias := range cc.Results {
 		if i < len(ts) {
 			envPost.vars[alias] = TV{ts[i], sig.Results().At(i).Type()}
@@ -302,10 +307,6 @@ func (fv *FuncVC) callWithContractEnv(x *ssa.Call, cc *FuncContract, extra map[s
 	}
 	if hs != nil && !regionMod {
 		hs.get("alloc")
-		hs.havocAll = false
-		for name := range hs.h {
-			hs.havoc[name] = true
-		}
 	}
 	fv.setResult(x, ts)
 }
